@@ -16,6 +16,7 @@ import (
 	"go/ast"
 	"go/token"
 	"go/types"
+	"strings"
 
 	"golang.org/x/tools/go/ssa"
 )
@@ -99,6 +100,16 @@ func (p *Prog) ksaRefine(cond ssa.Value, fr ssa.Value, k uint16) (t, f uint16) {
 			if _, ok := x.(*ssa.Const); ok {
 				x, y = y, x
 			}
+			// fr.Stream() == 0 on a frame received from serverConn.reader: only
+			// the kinds the read loop forwards with stream id 0 are possible.
+			if sc, ok := x.(*ssa.Call); ok && p.calleeName(sc.Common()) == "(*FrameHeader).Stream" && len(sc.Call.Args) == 1 && sc.Call.Args[0] == fr {
+				if kv, ok := constInt(y); ok && kv == 0 && p.ksaZeroKinds != kAll && p.recvFromReader(fr) {
+					if c.Op == token.EQL {
+						return k & p.ksaZeroKinds, k
+					}
+					return k, k & p.ksaZeroKinds
+				}
+			}
 			if recv, ok := p.typeCallOn(x); ok && recv == fr {
 				if kv, ok := constInt(y); ok && kv >= 0 && kv <= 9 {
 					bit := uint16(1) << uint(kv)
@@ -121,6 +132,15 @@ func (p *Prog) ksa() *ksaResult {
 	if v, ok := p.memo["ksa"]; ok {
 		return v.(*ksaResult)
 	}
+	p.ksaZeroKinds = kAll
+	first := p.ksaCore()
+	p.ksaZeroKinds = p.zeroStreamKinds(first)
+	res := p.ksaCore()
+	p.memo["ksa"] = res
+	return res
+}
+
+func (p *Prog) ksaCore() *ksaResult {
 	res := &ksaResult{in: map[*ssa.Function][]map[ssa.Value]uint16{}, paramK: map[*ssa.Function]map[int]uint16{}}
 	funcs := p.allFuncs()
 	// which functions may have their parameter sets derived from call sites
@@ -286,8 +306,72 @@ func (p *Prog) ksa() *ksaResult {
 		}
 		res.paramK = newParam
 	}
-	p.memo["ksa"] = res
 	return res
+}
+
+// recvFromReader: v is a value received from the channel serverConn.reader.
+func (p *Prog) recvFromReader(v ssa.Value) bool {
+	switch x := v.(type) {
+	case *ssa.Extract:
+		if sel, ok := x.Tuple.(*ssa.Select); ok {
+			for _, st := range sel.States {
+				if st.Dir == types.RecvOnly && strings.Contains(p.vdescN(st.Chan, 3), "serverConn.reader") && p.isFrameHeaderPtr(x.Type()) {
+					return true
+				}
+			}
+		}
+		if u, ok := x.Tuple.(*ssa.UnOp); ok && u.Op == token.ARROW {
+			return strings.Contains(p.vdescN(u.X, 3), "serverConn.reader")
+		}
+	case *ssa.UnOp:
+		if x.Op == token.ARROW {
+			return strings.Contains(p.vdescN(x.X, 3), "serverConn.reader")
+		}
+	}
+	return false
+}
+
+// zeroStreamKinds: the union of K over the sends on serverConn.reader that
+// are not made under the fact fr.Stream() != 0.
+func (p *Prog) zeroStreamKinds(k *ksaResult) uint16 {
+	var m uint16
+	found := false
+	for _, f := range p.allFuncs() {
+		for _, b := range f.Blocks {
+			for _, in := range b.Instrs {
+				var ch, val ssa.Value
+				switch x := in.(type) {
+				case *ssa.Send:
+					ch, val = x.Chan, x.X
+				case *ssa.Select:
+					for _, st := range x.States {
+						if st.Dir == types.SendOnly && strings.Contains(p.vdescN(st.Chan, 3), "serverConn.reader") {
+							ch, val = st.Chan, st.Send
+						}
+					}
+				}
+				if ch == nil || !strings.Contains(p.vdescN(ch, 3), "serverConn.reader") {
+					continue
+				}
+				found = true
+				nonzero := false
+				for _, ft := range p.factsAt(in) {
+					d := p.vdescN(ft.Cond, 4)
+					if strings.HasPrefix(d, "((*FrameHeader).Stream(") && ((strings.HasSuffix(d, " != 0)") && ft.Val) || (strings.HasSuffix(d, " == 0)") && !ft.Val)) {
+						nonzero = true
+					}
+				}
+				if nonzero {
+					continue
+				}
+				m |= k.kindAt(in, val)
+			}
+		}
+	}
+	if !found {
+		return kAll
+	}
+	return m
 }
 
 // kindAt returns K for frame value fr at instruction in.
